@@ -184,11 +184,29 @@ LEMMAS = [_lemmas]
 def native_replay(ctx, o):
     """Attenuator obligations: history replay on a real scene - sample the beam density, replace the atomic data source by one with a
     four times larger stopping rate, sample again; compared with a beam built from scratch with the final atomic data."""
-    if 'SingleRayAttenuator' not in o.name:
-        return None
     import os
     from replaylib.native import run_native
     scene = open(os.path.join(ctx['verif'], 'replaylib', 'beam_scene.py')).read()
+    if 'Beam._modified' in o.name:
+        # a beam without emission models (pure density sampler): sample, move the beam (own transform, then an ancestor), sample again
+        code = scene + '''
+from raysect.core import Node
+d0 = beam.density(0, 0, 3.0)
+beam.transform = translate(1.8, 0, -2)
+d1 = beam.density(0, 0, 3.0)
+b2 = Beam(parent=world, transform=translate(1.8, 0, -2))
+b2.plasma = plasma; b2.atomic_data = Data(); b2.energy = 60000; b2.power = 1e6; b2.element = elements.deuterium
+b2.sigma = 0.05; b2.divergence_x = 0.5; b2.divergence_y = 0.5; b2.length = 5.0
+b2.attenuator = SingleRayAttenuator(clamp_to_zero=False)
+d2 = b2.density(0, 0, 3.0)
+print(json.dumps({"density_before_move": d0, "density_after_move": d1, "density_fresh_beam_at_new_position": d2, "equal": abs(d1 - d2) <= 1e-9 * abs(d2)}))
+'''
+        out = run_native(ctx, code)
+        return {'confirmed': bool(out) and out.get('equal') is False, 'observed': out,
+                'input': 'beam without emission models: density(0,0,3); beam.transform = translate(1.8, 0, -2); density(0,0,3)',
+                'expected': 'density equals that of a beam built at the new position'}
+    if 'SingleRayAttenuator' not in o.name:
+        return None
     code = scene + '''
 class _Stop4(BeamStoppingRate):
     def evaluate(self, energy, density, temperature):
@@ -211,3 +229,13 @@ print(json.dumps({"density_first_atomic_data": d0, "density_after_replacing_atom
     return {'confirmed': bool(out) and out.get('equal') is False, 'observed': out,
             'input': 'beam.density(0,0,3); beam.atomic_data = <source with stopping rate 4e-13>; beam.density(0,0,3)',
             'expected': 'density equals that of a beam built from scratch with the new atomic data source'}
+
+
+_register_own = register
+
+
+def register(reg, ctx=None):
+    """plus: the container mutators and scene-graph hooks the derived beam state hangs on always notify (shared with C01)"""
+    _register_own(reg)
+    from .C01 import register_notifying_mutators
+    register_notifying_mutators(reg, PROP)
